@@ -249,7 +249,7 @@ func genPyPI(th bool) []string {
 	// alternative (non-normalised but PEP 440 valid) spellings
 	out = append(out, zeroForms([]string{"1", "1.2", "1!1"}, []string{"", "a00", "rc1", ".post00", ".dev00", "+00", "+abc.00"}, ".")...)
 	out = append(out, hugeForms(nil, []string{"#", "1.#", "#!1.0", "1.0a#", "1.0b#", "1.0rc#", "1.0.post#", "1.0.dev#", "1.0+#", "1.0+abc.#", "1.0rc1.post#.dev1"})...)
-	out = append(out, "1.0alpha1", "1.0-1", "1.0.RC1", "1.0c1", "v1.0", "1.0-rev1", "1.0_dev1", "1.0.post", "1.0.dev", "1.0-ALPHA", "1.0+ABC", "1.0pre1", "1.0-r1", " 1.0 ", "01.0", "1.01",
+	out = append(out, "1.0alpha1", "1.0-1", "1.0.RC1", "1.0c1", "1.0preview1", "1.0-beta-1", "1.0.rev", "1.0a", "1.0rc", "v1.0", "1.0-rev1", "1.0_dev1", "1.0.post", "1.0.dev", "1.0-ALPHA", "1.0+ABC", "1.0pre1", "1.0-r1", " 1.0 ", "01.0", "1.01",
 		BIG, "1."+BIG, BIG+"!1", "1.0a"+BIG, "1.0.post"+BIG, "1.0.dev"+BIG, "1.0+"+BIG, "1."+BIG2)
 	return out
 }
